@@ -14,6 +14,9 @@ Writes /verif/seeded/<ID>-<k>/{patch.diff, demo.rs, NOTES.md, meta.json}.
 import json, os, shutil, subprocess, sys
 
 args = sys.argv[1:]
+checks_only = "--checks-only" in args
+if checks_only:
+    args.remove("--checks-only")
 feat = None
 tier = "quick"
 if "--features" in args:
@@ -33,46 +36,59 @@ env = dict(os.environ, CARGO_TARGET_DIR=WT + "/target", CARGO_NET_OFFLINE="true"
 def sh(cmd, cwd=WT, **kw):
     return subprocess.run(cmd, shell=True, cwd=cwd, env=env, capture_output=True, text=True, **kw)
 
-if not os.path.isdir(WT):
-    r = subprocess.run(["git", "-C", "/repo", "worktree", "add", "-q", "--detach", WT, "HEAD"]); assert r.returncode == 0
-sh("git checkout -q --detach $(git -C /repo rev-parse HEAD) && git checkout -- . && git clean -fdq -e target")
-meta = {"id": "%s-%s" % (ID, k), "breaks_property": ID, "checks_run": props, "tier": tier, "source": "written by an independent sub-agent given only the property text"}
-r = sh("git apply --check %s && git apply %s" % (patch, patch))
-if r.returncode != 0:
-    # written against a slightly older HEAD (before the pause-point hooks):
-    # apply with reduced context and keep the rebased patch
-    r = sh("git apply -C1 --recount %s" % patch)
-    if r.returncode == 0:
-        rebased = "/tmp/seedval/rebased.diff"
-        d = sh("git diff")
-        open(rebased, "w").write(d.stdout)
-        patch = rebased
-        meta["patch_rebased"] = "context lines changed by the later hook commit b8ac502; applied with git apply -C1 and re-diffed"
-meta["patch_applies"] = r.returncode == 0
-if r.returncode != 0:
-    print("PATCH DOES NOT APPLY", r.stderr); sys.exit(1)
-r = sh("cargo test --workspace --no-fail-fast --offline 2>&1 | grep -E '^test result|error(\\[|:)' ")
-res = [l for l in r.stdout.splitlines() if l.startswith("test result")]
-passed = sum(int(l.split()[3]) for l in res); failed = sum(int(l.split()[5]) for l in res)
-meta["suite_with_change"] = {"passed": passed, "failed": failed, "errors": [l for l in r.stdout.splitlines() if "error" in l][:3]}
-print("suite with change: passed %d failed %d" % (passed, failed))
-dst = os.path.join(WT, crate, "tests", "demo.rs")
-shutil.copy(demo, dst)
-f = (" --features " + feat) if feat else ""
-r = sh("cargo test -p %s --test demo --offline%s 2>&1 | tail -40" % (crate, f))
-fail_with = "test result: FAILED" in r.stdout or "panicked" in r.stdout
-meta["demo_with_change"] = "fails" if fail_with else "PASSES (unexpected)"
-print("demo with change:", meta["demo_with_change"])
-if not fail_with:
-    print(r.stdout[-1500:])
-sh("git apply -R %s" % patch)
-r = sh("cargo test -p %s --test demo --offline%s 2>&1 | tail -15" % (crate, f))
-ok_without = "test result: ok" in r.stdout and "FAILED" not in r.stdout
-meta["demo_without_change"] = "passes" if ok_without else "FAILS (unexpected)"
-print("demo without change:", meta["demo_without_change"])
-if not ok_without:
-    print(r.stdout[-1500:])
-os.remove(dst)
+if checks_only:
+    old = json.load(open("/verif/seeded/%s-%s/meta.json" % (ID, k)))
+    meta = old
+    failed, fail_with, ok_without = 0, True, True
+    # the stored patch is already rebased onto /repo HEAD if that was necessary
+    r = subprocess.run(["git", "-C", "/repo", "apply", "--check", patch], capture_output=True, text=True)
+    if r.returncode != 0:
+        subprocess.run("git -C /repo apply -C1 --recount --check %s" % patch, shell=True, check=True)
+        import tempfile
+        subprocess.run("git -C /repo apply -C1 --recount %s && git -C /repo diff > /tmp/rebased_seed.diff && git -C /repo checkout -- ." % patch, shell=True, check=True)
+        patch = "/tmp/rebased_seed.diff"
+else:
+    if not os.path.isdir(WT):
+        r = subprocess.run(["git", "-C", "/repo", "worktree", "add", "-q", "--detach", WT, "HEAD"]); assert r.returncode == 0
+    sh("git checkout -q --detach $(git -C /repo rev-parse HEAD) && git checkout -- . && git clean -fdq -e target")
+    meta = {"id": "%s-%s" % (ID, k), "breaks_property": ID, "checks_run": props, "tier": tier, "source": "written by an independent sub-agent given only the property text"}
+    r = sh("git apply --check %s && git apply %s" % (patch, patch))
+    if r.returncode != 0:
+        # written against a slightly older HEAD (before the pause-point hooks):
+        # apply with reduced context and keep the rebased patch
+        r = sh("git apply -C1 --recount %s" % patch)
+        if r.returncode == 0:
+            rebased = "/tmp/seedval/rebased.diff"
+            d = sh("git diff")
+            open(rebased, "w").write(d.stdout)
+            patch = rebased
+            meta["patch_rebased"] = "context lines changed by the later hook commit b8ac502; applied with git apply -C1 and re-diffed"
+    meta["patch_applies"] = r.returncode == 0
+    if r.returncode != 0:
+        print("PATCH DOES NOT APPLY", r.stderr); sys.exit(1)
+    r = sh("cargo test --workspace --no-fail-fast --offline 2>&1 | grep -E '^test result|error(\\[|:)' ")
+    res = [l for l in r.stdout.splitlines() if l.startswith("test result")]
+    passed = sum(int(l.split()[3]) for l in res); failed = sum(int(l.split()[5]) for l in res)
+    meta["suite_with_change"] = {"passed": passed, "failed": failed, "errors": [l for l in r.stdout.splitlines() if "error" in l][:3]}
+    print("suite with change: passed %d failed %d" % (passed, failed))
+    dst = os.path.join(WT, crate, "tests", "demo.rs")
+    shutil.copy(demo, dst)
+    f = (" --features " + feat) if feat else ""
+    r = sh("cargo test -p %s --test demo --offline%s 2>&1 | tail -40" % (crate, f))
+    fail_with = "test result: FAILED" in r.stdout or "panicked" in r.stdout
+    meta["demo_with_change"] = "fails" if fail_with else "PASSES (unexpected)"
+    print("demo with change:", meta["demo_with_change"])
+    if not fail_with:
+        print(r.stdout[-1500:])
+    sh("git apply -R %s" % patch)
+    r = sh("cargo test -p %s --test demo --offline%s 2>&1 | tail -15" % (crate, f))
+    ok_without = "test result: ok" in r.stdout and "FAILED" not in r.stdout
+    meta["demo_without_change"] = "passes" if ok_without else "FAILS (unexpected)"
+    print("demo without change:", meta["demo_without_change"])
+    if not ok_without:
+        print(r.stdout[-1500:])
+    os.remove(dst)
+
 # step 4
 results = {}
 try:
@@ -88,12 +104,14 @@ meta["check_results"] = results
 meta["detected_by"] = [p for p, v in results.items() if v["exit"] == 1]
 out = "/verif/seeded/%s-%s" % (ID, k)
 os.makedirs(out, exist_ok=True)
-if os.path.abspath(src) != os.path.abspath(out):
+if os.path.abspath(src) != os.path.abspath(out) and not checks_only:
     shutil.copy(patch, out); shutil.copy(demo, out)
 if os.path.abspath(src) != os.path.abspath(out) and os.path.exists(os.path.join(src, "NOTES.md")):
     shutil.copy(os.path.join(src, "NOTES.md"), out)
-meta["demo_crate"] = crate
-meta["ran"] = ["cargo test --workspace (with change)", "cargo test -p %s --test demo (with / without change)" % crate] + ["./check %s %s (change applied to /repo, reverted afterwards)" % (p, tier) for p in props]
+meta["demo_crate"] = crate if not checks_only else meta.get("demo_crate", crate)
+if not checks_only:
+    meta["ran"] = ["cargo test --workspace (with change)", "cargo test -p %s --test demo (with / without change)" % crate] + ["./check %s %s (change applied to /repo, reverted afterwards)" % (p, tier) for p in props]
 json.dump(meta, open(os.path.join(out, "meta.json"), "w"), indent=1)
+meta["checks_run"] = props
 valid = meta["patch_applies"] and failed == 0 and fail_with and ok_without
 print("VALID" if valid else "INVALID", "detected by", meta["detected_by"])
